@@ -101,7 +101,13 @@ Definition clause7 (s : sp) (b : obs) : bool := forallb (fun x => memN (snd x) (
 (* failing clauses of one step; the state passed is the one AFTER the
    configuration part of the event (a removal takes effect "at once"), indices
    handed out during the step are learnt afterwards *)
+(* a state inside one multi-line set operation cannot be observed: the harness marks such a step (the whole operation
+   is judged at its last step) *)
+Definition unobserved (b : obs) : bool :=
+  match o_keys b with [k] => k =? 4294967295 | _ => false end.
+
 Definition judge (s : sp) (e : ev) (b : obs) : list N :=
+  if unobserved b then [] else
   (if clause1 s b then [] else [1]) ++ (if clause2 s b then [] else [2]) ++
   (if clause3 s b then [] else [3]) ++ (if clause4 s e b then [] else [4]) ++
   (if clause5 s b then [] else [5]) ++ (if clause6 s e b then [] else [6]) ++
